@@ -42,7 +42,7 @@ func TestMain(m *testing.M) {
 func gen(rt *rapid.T) any {
 	r := &Record{}
 	r.Prog = gencommon.Program(rt, gencommon.ProgramSpec{CorpusShare: 3, Lib: 3, MaxXGo: 2, Budget: 120, MaxDepth: 8, MaxDecls: 6}, env.Paths)
-	r.Front = gencommon.Front(rt, gencommon.FrontSpec{Faults: run.FaultKinds, MaxFaults: 4, FileAssign: true, HandlerFlip: true})
+	r.Front = gencommon.Front(rt, gencommon.FrontSpec{Faults: []string{"discard_ref", "abort_stmt", "abort_init", "abort_endinit", "abort_return", "callex_err", "abort_header", "discard_reset"}, MaxFaults: 4, Constructs: []string{"vblock", "inline_closure", "bigint_op", "unit_lit", "unsafe_ref"}, FileAssign: true, HandlerFlip: true})
 	return r
 }
 
@@ -256,6 +256,9 @@ func (m *model) after(op string, a, b int) {
 			m.closeCheck(cb, *t, "EndInit")
 			m.depth = t.base
 			m.frames = m.frames[:len(m.frames)-1]
+		case "Return!short":
+			// nothing was pushed, nothing may be popped: the statement is complete at the base
+			m.stmtDone("Return with missing operands")
 		case "EndInit!fail":
 			// EndInit reported an error: its deferred cleanup has popped the operands and
 			// ended the initialiser context all the same
